@@ -24,6 +24,9 @@ CHECKS = {
  "C03": dict(text="Coq theorems (Props/C03.v): the lookup walk equals 'first hit over scope, enclosing scopes, then global' (global only for a leading '::'); a reference designating a non-alias binds exactly that entity iff its kind fits the position; aliases are transparent (final non-alias target, attributes of every link in chain order) for every repeat-free chain; a reference designating nothing or a wrong kind is an error, never a binding; resolution terminates; unique keys make lookups independent of insertion order and every entity retrievable by its scoped name. Tied to the real patcher by bounded-exhaustive module/name/spelling arrangements, alias chains with attributes and random multi-file programs, comparing every reference's bound definition, attributes and error code.",
              note="Trusted: Coq kernel, extraction, harness AST dump, the generator's table construction order. E019 reports are not compared (only per-reference outcome and E017/E033).",
              tech="Coq proof (lookup = outward scope search; alias transparency by induction on chains) + arrangement-exhaustive correspondence", ref="DESIGN.md §7 C03"),
+ "C20": dict(text="Coq theorems (Props/C20.v): the event list of the visit_with functions equals the pre-order of the file's tree (file, module, definitions in source order, containers before contents, each type right after its owner followed by its nested element/key/value/success/failure types to any depth); filtering the entities gives exactly the declared entities once each in source order; unpatched references are not descended. Tied to the real Visitor by a recording visitor on generated multi-file programs, the model walking the AST as the public accessors present it.",
+             note="Trusted: Coq kernel, extraction, harness (AST dump + recording visitor). Interpretation recorded: nested references of an alias of an anonymous type are presented from every user.",
+             tech="Coq proof (visit = pre-order of the tree, nested induction) + recording-visitor correspondence", ref="DESIGN.md §7 C20"),
 }
 NOT_APPLICABLE = {}
 def main():
